@@ -10,43 +10,45 @@ import PyIpmi.Gen.Tables
 namespace PyIpmi.Model.Api
 open PyIpmi PyIpmi.Codec PyIpmi.Spec.Bmc PyIpmi.Gen.Tables
 
-def api_get_picmg_properties (s : BmcState) : Outcome (BmcState × Result) :=
-  (transact reqGetPicmgProperties rspGetPicmgProperties 0 (fresh reqGetPicmgProperties) s).bind fun (s', v) =>
-    .ok (s', .picmgProps (intAt v 2) (intAt v 3) (intAt v 4))
+def api_get_picmg_properties : Exchange :=
+  { req := reqGetPicmgProperties, rsp := rspGetPicmgProperties, vals := .ok (fresh reqGetPicmgProperties),
+    post := fun v => .ok (.picmgProps (intAt v 2) (intAt v 3) (intAt v 4)) }
 
-def fruControl (fru opt : Nat) (s : BmcState) : Outcome (BmcState × List Nat) :=
-  let r := setInt (setInt (fresh reqFruControl) 1 fru) 2 opt
-  (transact reqFruControl rspFruControl 0 r s).bind fun (s', v) => .ok (s', arrAt v 2)
+/-- fru_control, continued by `k` on the response data -/
+def fruControl (fru opt : Nat) (k : List Nat → Result) : Exchange :=
+  { req := reqFruControl, rsp := rspFruControl, vals := .ok (setInt (setInt (fresh reqFruControl) 1 fru) 2 opt),
+    post := fun v => .ok (k (arrAt v 2)) }
 
-def api_fru_control (fru opt : Nat) (s : BmcState) : Outcome (BmcState × Result) :=
-  (fruControl fru opt s).bind fun (s', d) => .ok (s', .bytes d)
+def api_fru_control (fru opt : Nat) : Exchange := fruControl fru opt .bytes
 
 /-- fru_control_cold_reset / warm_reset / graceful_reboot drop the result, …_diagnostic_interrupt returns it -/
-def api_fru_control_named (idx fru : Nat) (s : BmcState) : Outcome (BmcState × Result) :=
+def api_fru_control_named (idx fru : Nat) : Exchange :=
   match fruControlOption[idx]? with
-  | some opt => (fruControl fru opt s).bind fun (s', d) => .ok (s', if idx = 3 then .bytes d else .unit)
-  | none => .pyError "AttributeError"
+  | some opt => fruControl fru opt fun d => if idx = 3 then .bytes d else .unit
+  | none => .raise (.pyError "AttributeError")
 
-def api_get_power_level (fru ty : Nat) (s : BmcState) : Outcome (BmcState × Result) :=
-  let r := setInt (setInt (fresh reqGetPowerLevel) 1 fru) 2 ty
-  (transact reqGetPowerLevel rspGetPowerLevel 0 r s).bind fun (s', v) =>
-    .ok (s', .power { dynamic := n2b (bitAt v 2 2), level := bitAt v 2 0, delay := intAt v 3,
-                      multiplier := intAt v 4, draw := arrAt v 5 })
+def api_get_power_level (fru ty : Nat) : Exchange :=
+  { req := reqGetPowerLevel, rsp := rspGetPowerLevel, vals := .ok (setInt (setInt (fresh reqGetPowerLevel) 1 fru) 2 ty),
+    post := fun v =>
+      .ok (.power { dynamic := n2b (bitAt v 2 2), level := bitAt v 2 0, delay := intAt v 3,
+                    multiplier := intAt v 4, draw := arrAt v 5 }) }
 
-def api_get_fan_speed_properties (fru : Nat) (s : BmcState) : Outcome (BmcState × Result) :=
-  (transact reqGetFanSpeedProperties rspGetFanSpeedProperties 0 (setInt (fresh reqGetFanSpeedProperties) 1 fru) s).bind
-    fun (s', v) => .ok (s', .fanProps (intAt v 2) (intAt v 3) (intAt v 4) (n2b (bitAt v 5 1)))
+def api_get_fan_speed_properties (fru : Nat) : Exchange :=
+  { req := reqGetFanSpeedProperties, rsp := rspGetFanSpeedProperties,
+    vals := .ok (setInt (fresh reqGetFanSpeedProperties) 1 fru),
+    post := fun v => .ok (.fanProps (intAt v 2) (intAt v 3) (intAt v 4) (n2b (bitAt v 5 1))) }
 
-def api_set_fan_level (fru lvl : Nat) (s : BmcState) : Outcome (BmcState × Result) :=
-  let r := setInt (setInt (fresh reqSetFanLevel) 1 fru) 2 lvl
-  (transact reqSetFanLevel rspSetFanLevel 0 r s).bind fun (s', _) => .ok (s', .unit)
+def api_set_fan_level (fru lvl : Nat) : Exchange :=
+  { req := reqSetFanLevel, rsp := rspSetFanLevel, vals := .ok (setInt (setInt (fresh reqSetFanLevel) 1 fru) 2 lvl),
+    post := fun _ => .ok .unit }
 
-def api_get_fan_level (fru : Nat) (s : BmcState) : Outcome (BmcState × Result) :=
-  (transact reqGetFanLevel rspGetFanLevel 0 (setInt (fresh reqGetFanLevel) 1 fru) s).bind fun (s', v) =>
-    let loc := match optArrAt v 3 with
-      | some (d0 :: _) => some d0
-      | _ => none
-    .ok (s', .optNatPair (some (intAt v 2)) loc)
+def api_get_fan_level (fru : Nat) : Exchange :=
+  { req := reqGetFanLevel, rsp := rspGetFanLevel, vals := .ok (setInt (fresh reqGetFanLevel) 1 fru),
+    post := fun v =>
+      let loc := match optArrAt v 3 with
+        | some (d0 :: _) => some d0
+        | _ => none
+      .ok (.optNatPair (some (intAt v 2)) loc) }
 
 /-- function byte + on-duration byte ↦ LED function; `checkOn`: the local-control branch also
 range-checks the on-duration -/
@@ -79,40 +81,45 @@ def ledViewShipped (v : List Val) : Outcome LedView :=
   .ok { localAvail := n2b (bitAt v 2 0), overrideEn := ovr, lampTestEn := lamp, localFn := lf,
         localColor := intAt v 5, override := o, lampDur := if lamp then some (intAt v 9) else none }
 
-def getLedState (view : List Val → Outcome LedView) (fru led : Nat) (s : BmcState) : Outcome (BmcState × Result) :=
-  let r := setInt (setInt (fresh reqGetFruLedState) 1 fru) 2 led
-  (transact reqGetFruLedState rspGetFruLedState 0 r s).bind fun (s', v) =>
-    (view v).bind fun x => .ok (s', .led x)
+def getLedState (view : List Val → Outcome LedView) (fru led : Nat) : Exchange :=
+  { req := reqGetFruLedState, rsp := rspGetFruLedState,
+    vals := .ok (setInt (setInt (fresh reqGetFruLedState) 1 fru) 2 led),
+    post := fun v => (view v).bind fun x => .ok (.led x) }
 
 def api_get_led_state := getLedState ledView
 def api_get_led_state_shipped := getLedState ledViewShipped
 
+/-- LedState.to_request: (function byte, on-duration byte, colour) -/
+def ledToRequest (c : LedCmd) : Outcome (Nat × Nat × Nat) :=
+  match c with
+  | .override .on color => .ok (ledOn, 0, color)
+  | .override .off color => .ok (ledOff, 0, color)
+  | .override (.blink o n) color =>
+    if ledBlinkLo ≤ o ∧ o ≤ ledBlinkHi then .ok (o, n, color) else .encodingError
+  | .lampTest d color => .ok (ledLampTest, d, color)
+  | .restoreLocal => .notSupported
+
 /-- LedState.to_request + set_led_state -/
-def api_set_led_state (fru led : Nat) (c : LedCmd) (s : BmcState) : Outcome (BmcState × Result) :=
-  let fo : Outcome (Nat × Nat × Nat) := match c with
-    | .override .on color => .ok (ledOn, 0, color)
-    | .override .off color => .ok (ledOff, 0, color)
-    | .override (.blink o n) color =>
-      if ledBlinkLo ≤ o ∧ o ≤ ledBlinkHi then .ok (o, n, color) else .encodingError
-    | .lampTest d color => .ok (ledLampTest, d, color)
-    | .restoreLocal => .notSupported
-  fo.bind fun (f, n, color) =>
+def api_set_led_state (fru led : Nat) (c : LedCmd) : Exchange :=
+  match ledToRequest c with
+  | .ok (f, n, color) =>
     let r := fresh reqSetFruLedState
     let r := setInt r 1 fru
     let r := setInt r 2 led
     let r := setInt r 5 color
     let r := setInt r 3 f
     let r := setInt r 4 n
-    (transact reqSetFruLedState rspSetFruLedState 0 r s).bind fun (s', _) => .ok (s', .unit)
+    { req := reqSetFruLedState, rsp := rspSetFruLedState, vals := .ok r, post := fun _ => .ok .unit }
+  | e => .raise (reraise e)
 
-def api_set_fru_activation (fru : Nat) (on : Bool) (s : BmcState) : Outcome (BmcState × Result) :=
+def api_set_fru_activation (fru : Nat) (on : Bool) : Exchange :=
   match fruActivationControl[if on then 1 else 0]? with
   | some c =>
-    let r := setInt (setInt (fresh reqSetFruActivation) 1 fru) 2 c
-    (transact reqSetFruActivation rspSetFruActivation 0 r s).bind fun (s', _) => .ok (s', .unit)
-  | none => .pyError "AttributeError"
+    { req := reqSetFruActivation, rsp := rspSetFruActivation,
+      vals := .ok (setInt (setInt (fresh reqSetFruActivation) 1 fru) 2 c), post := fun _ => .ok .unit }
+  | none => .raise (.pyError "AttributeError")
 
-def api_set_fru_activation_policy (fru ctrl : Nat) (s : BmcState) : Outcome (BmcState × Result) :=
+def api_set_fru_activation_policy (fru ctrl : Nat) : Exchange :=
   let r := setInt (fresh reqSetFruActivationPolicy) 1 fru
   let r := match ctrl with
     | 0 => setBit (setBit r 2 0 1) 3 0 1
@@ -120,15 +127,15 @@ def api_set_fru_activation_policy (fru ctrl : Nat) (s : BmcState) : Outcome (Bmc
     | 2 => setBit (setBit r 2 1 1) 3 1 1
     | 3 => setBit (setBit r 2 1 1) 3 1 0
     | _ => r
-  (transact reqSetFruActivationPolicy rspSetFruActivationPolicy 0 r s).bind fun (s', _) => .ok (s', .unit)
+  { req := reqSetFruActivationPolicy, rsp := rspSetFruActivationPolicy, vals := .ok r, post := fun _ => .ok .unit }
 
-def api_fru_lock_named (idx fru : Nat) (s : BmcState) : Outcome (BmcState × Result) :=
+def api_fru_lock_named (idx fru : Nat) : Exchange :=
   match policyCtrl[idx]? with
-  | some c => api_set_fru_activation_policy fru c s
-  | none => .pyError "AttributeError"
+  | some c => api_set_fru_activation_policy fru c
+  | none => .raise (.pyError "AttributeError")
 
 /-- `p.linkType` carries LinkDescriptor.type in its low and .sig_class in its high nibble -/
-def api_set_port_state (iface ch : Nat) (p : Port) (s : BmcState) : Outcome (BmcState × Result) :=
+def api_set_port_state (iface ch : Nat) (p : Port) : Exchange :=
   let r := fresh reqSetPortState
   let r := setBit r 1 0 ch
   let r := setBit r 1 1 iface
@@ -141,56 +148,59 @@ def api_set_port_state (iface ch : Nat) (p : Port) (s : BmcState) : Outcome (Bmc
   let r := setBit r 1 8 p.ext
   let r := setBit r 1 9 p.grouping
   let r := setInt r 2 p.state
-  (transact reqSetPortState rspSetPortState 0 r s).bind fun (s', _) => .ok (s', .unit)
+  { req := reqSetPortState, rsp := rspSetPortState, vals := .ok r, post := fun _ => .ok .unit }
 
-def getPortState (shipped : Bool) (ch iface : Nat) (s : BmcState) : Outcome (BmcState × Result) :=
-  let r := setBit (setBit (fresh reqGetPortState) 1 0 ch) 1 1 iface
-  (transact reqGetPortState rspGetPortState 0 r s).bind fun (s', v) =>
-    match arrAt v 2 with
-    | d0 :: d1 :: d2 :: d3 :: d4 :: _ =>
-      .ok (s', .port (some { channel := d0 % 64, iface := d0 / 64 % 4, flags := d1 % 16,
-                             linkType := d1 / 16 % 16 + 16 * (d2 % 16), ext := d2 / 16 % 16, grouping := d3, state := d4 }))
-    | _ => if shipped then .pyError "UnboundLocalError" else .ok (s', .port none)
+def getPortState (shipped : Bool) (ch iface : Nat) : Exchange :=
+  { req := reqGetPortState, rsp := rspGetPortState,
+    vals := .ok (setBit (setBit (fresh reqGetPortState) 1 0 ch) 1 1 iface),
+    post := fun v =>
+      match arrAt v 2 with
+      | d0 :: d1 :: d2 :: d3 :: d4 :: _ =>
+        .ok (.port (some { channel := d0 % 64, iface := d0 / 64 % 4, flags := d1 % 16,
+                           linkType := d1 / 16 % 16 + 16 * (d2 % 16), ext := d2 / 16 % 16, grouping := d3, state := d4 }))
+      | _ => if shipped then .pyError "UnboundLocalError" else .ok (.port none) }
 
 def api_get_port_state := getPortState false
 def api_get_port_state_shipped := getPortState true
 
-def powerChannelStatus (start : Nat) (s : BmcState) : Outcome (BmcState × List Val) :=
-  let r := setInt (setInt (fresh reqGetPowerChannelStatus) 1 start) 2 1
-  transact reqGetPowerChannelStatus rspGetPowerChannelStatus 0 r s
+/-- get_power_channel_status request for ONE channel, continued by `k` -/
+def powerChannelStatus (start : Nat) (k : List Val → Outcome Result) : Exchange :=
+  { req := reqGetPowerChannelStatus, rsp := rspGetPowerChannelStatus,
+    vals := .ok (setInt (setInt (fresh reqGetPowerChannelStatus) 1 start) 2 1), post := k }
 
-def api_get_pm_global_status (s : BmcState) : Outcome (BmcState × Result) :=
-  (powerChannelStatus 1 s).bind fun (s', v) =>
-    .ok (s', .pmGlobal (bitAt v 3 0 + 2 * bitAt v 3 1 + 4 * bitAt v 3 2 + 8 * bitAt v 3 3))
+def api_get_pm_global_status : Exchange :=
+  powerChannelStatus 1 fun v =>
+    .ok (.pmGlobal (bitAt v 3 0 + 2 * bitAt v 3 1 + 4 * bitAt v 3 2 + 8 * bitAt v 3 3))
 
-def api_get_power_channel_status (start : Nat) (s : BmcState) : Outcome (BmcState × Result) :=
-  (powerChannelStatus start s).bind fun (s', v) =>
+def api_get_power_channel_status (start : Nat) : Exchange :=
+  powerChannelStatus start fun v =>
     match arrAt v 4 with
-    | d0 :: _ => .ok (s', .nat (d0 % 128))
+    | d0 :: _ => .ok (.nat (d0 % 128))
     | [] => .pyError "IndexError"
 
-def api_send_channel_power (ch : Nat) (enable : Bool) (limit10 primary backup : Nat) (s : BmcState) :
-    Outcome (BmcState × Result) :=
+def api_send_channel_power (ch : Nat) (enable : Bool) (limit10 primary backup : Nat) : Exchange :=
   let r := fresh reqSendPowerChannelControl
   let r := setInt r 1 ch
   let r := setInt r 2 (if enable then 5 else 4)
   let r := setInt r 3 limit10
   let r := setInt r 4 primary
   let r := setInt r 5 backup
-  (transact reqSendPowerChannelControl rspSendPowerChannelControl 0 r s).bind fun (s', _) => .ok (s', .unit)
+  { req := reqSendPowerChannelControl, rsp := rspSendPowerChannelControl, vals := .ok r, post := fun _ => .ok .unit }
 
-def api_send_pm_heartbeat (s : BmcState) : Outcome (BmcState × Result) :=
-  (transact reqSendPmHeartbeat rspSendPmHeartbeat 0 (fresh reqSendPmHeartbeat) s).bind fun (s', _) => .ok (s', .unit)
+def api_send_pm_heartbeat : Exchange :=
+  { req := reqSendPmHeartbeat, rsp := rspSendPmHeartbeat, vals := .ok (fresh reqSendPmHeartbeat),
+    post := fun _ => .ok .unit }
 
-def api_set_signaling_class (iface ch cls : Nat) (s : BmcState) : Outcome (BmcState × Result) :=
+def api_set_signaling_class (iface ch cls : Nat) : Exchange :=
   let r := fresh reqSetSignalingClass
   let r := setBit r 1 0 ch
   let r := setBit r 1 1 iface
   let r := setBit r 2 0 cls
-  (transact reqSetSignalingClass rspSetSignalingClass 0 r s).bind fun (s', _) => .ok (s', .unit)
+  { req := reqSetSignalingClass, rsp := rspSetSignalingClass, vals := .ok r, post := fun _ => .ok .unit }
 
-def api_get_signaling_class (iface ch : Nat) (s : BmcState) : Outcome (BmcState × Result) :=
-  let r := setBit (setBit (fresh reqGetSignalingClass) 1 0 ch) 1 1 iface
-  (transact reqGetSignalingClass rspGetSignalingClass 0 r s).bind fun (s', v) => .ok (s', .nat (bitAt v 3 0))
+def api_get_signaling_class (iface ch : Nat) : Exchange :=
+  { req := reqGetSignalingClass, rsp := rspGetSignalingClass,
+    vals := .ok (setBit (setBit (fresh reqGetSignalingClass) 1 0 ch) 1 1 iface),
+    post := fun v => .ok (.nat (bitAt v 3 0)) }
 
 end PyIpmi.Model.Api
